@@ -347,6 +347,15 @@ def judgeMatDbl (what : String) : P Verdict := do
   let eps ← int
   let (m, n, M) ← denseMat
   let tag := s!"mat:{what}:d"
+  -- slice / permute carry index lists; for permute an empty list encodes "NULL = identity"
+  let idx : Option (List Nat × List Nat) ←
+    if what == "slice" || what == "permute" then do
+      let nr ← nat; let nc ← nat
+      let rs ← many nat nr
+      let cs ← many nat nc
+      pure (some (if what == "permute" && nr == 0 then List.range m else rs,
+                  if what == "permute" && nc == 0 then List.range n else cs))
+    else pure none
   expect "=>"
   let status ← tok
   let entries : List Int := (M.flatMap id).filter (· != 0)
@@ -381,7 +390,10 @@ def judgeMatDbl (what : String) : P Verdict := do
       | "transpose" => (n, m, transpose m n M)
       | "support" => (m, n, M.mapEntries (fun x => if x.natAbs > eps.toNat then 1 else 0))
       | "ssupport" => (m, n, M.mapEntries (fun x => if x.natAbs > eps.toNat then (if x > 0 then 1 else -1) else 0))
-      | _ => (m, n, M)
+      | _ =>
+        match idx with
+        | some (rs, cs) => (rs.length, cs.length, sub M rs cs)
+        | none => (m, n, M)
     let some A ← csr | return .fail tag "no result"
     match checkCsr A em en with
     | .error e => return .fail s!"{tag}:csr" e
